@@ -47,8 +47,9 @@ class Scenario:
     """name, accessor kind/options, encoding; setup(); op(); targets; others"""
 
     def __init__(self, name, kind, encoding="raw", dtype="uint8", flat=False, gzip=True,
-                 op="store_new", strategy="in memory", enc="raw"):
+                 op="store_new", strategy="in memory", enc="raw", bits=(0, 1, 1), order=(3, 0, 2)):
         self.name, self.kind, self.encoding, self.dtype = name, kind, encoding, dtype
+        self.bits, self.order = tuple(bits), tuple(order)     # (preshift, minishard, shard) bits; store order
         self.flat, self.gzip, self.opname, self.strategy, self.enc = flat, gzip, op, strategy, enc
         if encoding == "compressed_segmentation":
             self.dtype = "uint32"
@@ -65,8 +66,9 @@ class Scenario:
     def sharding(self):
         if self.kind != "sharded":
             return None
-        return {"@type": "neuroglancer_uint64_sharded_v1", "minishard_bits": 1, "shard_bits": 1,
-                "preshift_bits": 0, "hash": "identity", "minishard_index_encoding": self.enc,
+        return {"@type": "neuroglancer_uint64_sharded_v1", "minishard_bits": self.bits[1],
+                "shard_bits": self.bits[2],
+                "preshift_bits": self.bits[0], "hash": "identity", "minishard_index_encoding": self.enc,
                 "data_encoding": self.enc}
 
     def setup(self, sandbox):
@@ -108,7 +110,7 @@ class Scenario:
                 c = COORDS[2] if op == "store_new" else COORDS[0]
                 cs = [c]
             else:
-                cs = [COORDS[3], COORDS[0], COORDS[2]]     # out of identifier order
+                cs = [COORDS[i] for i in self.order]       # out of identifier order
             self.targets = []
             for i, c in enumerate(cs):
                 a = arr(300 + i, self.dtype)
